@@ -68,6 +68,18 @@ def instances(n=4):
     return dbs
 
 
+
+def align(names, rows, expected):
+    """rows with their columns put into the order of `expected` when the returned names are a permutation of it (the ORDER of result
+    columns is C05's subject and, after `group`, varies from call to call: listed C11 leak wildcard-equal-order-choice)"""
+    if names is None or rows is None:
+        return rows
+    low = [n.lower() for n in names]
+    if low != list(expected) and sorted(low) == sorted(expected) and len(set(low)) == len(low):
+        idx = [low.index(e) for e in expected]
+        return [[r[i] for i in idx] for r in rows]
+    return rows
+
 def admissible(prog, rows, got):
     """None if `got` (list of rows in the order of prog['out']) is an admissible result, else a description"""
     key, out = prog["key"], prog["out"]
@@ -131,6 +143,7 @@ def run(ctx, targets=("sql.sqlite", "sql.generic")):
                 continue
             for rows in dbs:
                 names, got, err = relgen.run_sqlite(SCHEMA, [rows], a["sql"])
+                got = align(names, got, p["out"])
                 ctx.case((p["prql"], str(rows), t), nontrivial=bool(got))
                 why = err if err is not None else admissible(p, rows, got)
                 if why is None and names is not None and [n.lower() for n in names] != p["out"]:
